@@ -26,7 +26,13 @@ AllRules == {"C01.Accept", "C01.Reject", "C01.Data", "C01.BlankReading",
              "C09.Accepted", "C09.SameRecords", "C09.FixedPoint", "C09.Layout", "C09.Exact",
              "C10.NoPanic", "C10.ErrShape", "C10.Order", "C10.FirstLine", "C10.Term", "C10.Json", "C10.Multi", "C10.Stdin",
              "C01.Channels", "C09.Channels", "C08.NoOpFile", "C10.ParEqual", "C20.Stdin", "C01.ParEqual", "C09.Cpus", "C20.Cpus"}
-RuleNames == {r \in AllRules : Sel = "ALL" \/ StartsWith(r, Sel)}
+RECURSIVE SplitComma(_)
+SplitComma(t) == LET i == FindIn(t, 1, {","}) IN
+                 IF i > Len(t) THEN {t} ELSE {Take(t, i - 1)} \cup SplitComma(Drop(t, i))
+Prefixes == SplitComma(Sel)           \* a comma-separated list of rule name prefixes
+RuleNames == {r \in AllRules : Sel = "ALL" \/ \E p \in Prefixes : StartsWith(r, p)}
+(* a selection that matches no rule would make the validation vacuous *)
+ASSUME RuleNames # {}
 
 EntryTotal(e) == IF e.kind = "dur" THEN e.a ELSE IF e.kind = "range" THEN e.b - e.a ELSE 0
 
